@@ -4,6 +4,7 @@ package main
 import (
 	"fmt"
 	"reflect"
+	"time"
 	"unsafe"
 
 	hessian "github.com/vogo/gohessian"
@@ -56,6 +57,15 @@ type BadIface struct { // an interface-typed field holding something unrepresent
 type hiddenField struct {
 	A int32
 	b int32 // unexported: cannot be read through reflection's Interface()
+}
+type StampedChan struct {
+	time.Time
+	C chan int
+	N int32
+}
+type StampedFunc struct {
+	time.Time
+	F func()
 }
 type MyInt int32
 type MyStr string
@@ -122,6 +132,10 @@ func c13Cases() (out []struct {
 	add("typedlist/complex", []complex128{1i}, true)
 	add("typedmap/func", map[string]func(){"f": fn}, true)
 	add("struct-by-value/chan", BadChanF{1, ch, "b"}, true)
+	// a struct that EMBEDS a timestamp is a struct, not a timestamp: its other fields count
+	add("embedded-time/chan", &StampedChan{time.Unix(1700000000, 0), ch, 3}, true)
+	add("embedded-time/chan-in-list", []interface{}{int32(1), &StampedChan{time.Unix(5, 0), ch, 3}}, true)
+	add("embedded-time/func-by-value", StampedFunc{time.Unix(1700000000, 0), fn}, true)
 	// representable in principle: must round-trip or be rejected, never panic or corrupt
 	add("unexported-field", &hiddenField{1, 2}, false)
 	add("named-scalars", &NamedScalars{5, "s"}, false)
